@@ -4731,13 +4731,12 @@ static WBXMLError xml_encode_text_entities(WBXMLEncoder *encoder, WBXMLBuffer *b
             break;
 
         case '\r':
-            if (normalize) {
-                /* Write "&#13;" */
-                if (!wbxml_buffer_append_cstr(encoder->output, (WB_UTINY *) xml_slashr))
-                    return WBXML_ERROR_NOT_ENOUGH_MEMORY;
+            /* Write "&#13;" (always: a literal CR does not survive XML's line-end
+             * normalisation when the document is read again) */
+            if (!wbxml_buffer_append_cstr(encoder->output, (WB_UTINY *) xml_slashr))
+                return WBXML_ERROR_NOT_ENOUGH_MEMORY;
 
-                break;
-            }
+            break;
 
         case '\n':
             if (normalize) {
